@@ -2032,6 +2032,9 @@ func runGen(seed uint64, n int, outDir, corpusDir, variant string) {
 				res.Count("header:version_header_inside_batch")
 			}
 		}
+		if hc.SelfCanon > 0 {
+			res.Count("header:same_hash_canonical:" + hverdictName(hc.Verdict))
+		}
 		if hc.Verdict == 0 && hc.Seal && hc.Kind == "header" {
 			res.Count("header:accept_with_seal_check")
 			if hc.C.H.Number%params.ACoCHTFrequency == 0 {
